@@ -120,6 +120,7 @@ def run(ctx):
         env = dict(ENV)
         env.update(extra)
         runs = ctx.econc(exe, drv, [mode], seed0, cnt, env=env)
+        ctx.log("mode %s%s: %d runs" % (mode, "/pct" if extra else "", len(runs)))
         dist["modes"][mode + ("/pct" if extra else "")] = len(runs)
         for r in runs:
             dist["verdicts"][r["verdict"].split()[0]] = dist["verdicts"].get(r["verdict"].split()[0], 0) + 1
